@@ -23,6 +23,7 @@ import IocProofs.Lemmas.SemFactory2
 import IocProofs.Lemmas.SemDelegate
 import IocProofs.Lemmas.M2Lookups
 import IocProofs.Lemmas.SemMeta
+import IocProofs.Lemmas.SemPrepare
 namespace Ioc.C03
 open Ioc.M2
 
@@ -339,5 +340,33 @@ theorem C03_code_GetDependents (idOf nameOf : Nat → String) (isComp : Nat → 
 
 end dependents
 
+
+/-! ### NewMeta, CreateProxy, genProxyComponent, REGENERATED (interpretation Ioc.SemPrepare) -/
+section proxy
+open Ioc.Go Ioc.Sem
+
+/-- NewMeta: ONE new definition for the component, named by the naming helper, Raw = the component, no proxy link, its fields
+    scanned once with a holder of this very definition -/
+theorem C03_code_NewMeta (naming : Nat → String × String) (icept : Nat → Option String) (c : Nat) (w : NMW) :
+    run (nmPrims naming icept) Progs.meta_NewMeta [.ref c 0] w =
+      some (.ref w.metas.length 1, { w with metas := w.metas ++ [⟨c, (naming c).1, (naming c).2, none, true⟩] }) :=
+  newMeta_sem naming icept c w
+
+/-- CreateProxy: ONE new definition for the substituted component, carrying the name it is GIVEN (the name under which the
+    origin is registered — not the new component's own), and `ProxyMeta` = the origin: the version chain; interceptors run in
+    order on it, the first error ends the call with no definition.  genProxyComponent is this without interceptors -/
+theorem C03_code_CreateProxy (naming : Nat → String × String) (icept : Nat → Option String) (o c : Nat) (n : String)
+    (ks : List Nat) (w : NMW) :
+    run (cpPrims naming icept) Progs.meta_CreateProxy [.ref o 1, .str n, .ref c 0, .list (ks.map (fun k => Val.ref k 140))] w =
+      some (match (icRun icept ks).2 with
+            | none => .tuple [.ref w.metas.length 1, .nil]
+            | some e => .tuple [.nil, .str e],
+            { metas := w.metas ++ [⟨c, n, (naming c).2, some o, true⟩],
+              intercepted := w.intercepted ++ (icRun icept ks).1 }) ∧
+    run (cpPrims naming icept) Progs.factory_genProxyComponent [.ref o 1, .str n, .ref c 0] w =
+      some (.tuple [.ref w.metas.length 1, .nil], { w with metas := w.metas ++ [⟨c, n, (naming c).2, some o, true⟩] }) :=
+  ⟨createProxy_sem naming icept o c n ks w, genProxy_sem naming icept o c n w⟩
+
+end proxy
 
 end Ioc.C03
